@@ -4,7 +4,7 @@ use ckb_app_config::SyncConfig;
 use ckb_chain::ChainServiceScope;
 use ckb_chain_spec::consensus::{Consensus, ConsensusBuilder};
 use ckb_shared::{Shared, SharedBuilder};
-use ckb_sync::{ReconstructionResult, Relayer, SyncShared, relayer_verif_hooks as hooks};
+use ckb_sync::{ReconstructionResult, Relayer, SyncShared, received_guards, relayer_verif_hooks as hooks};
 use ckb_types::{
     bytes::Bytes,
     core::{self, BlockBuilder, BlockView, Capacity, TransactionBuilder, TransactionView},
@@ -76,7 +76,7 @@ fn compact_battery(cb: packed::CompactBlock) {
 }
 
 /// view conversions, hash functions and context-free verifiers on a buffer the decoder accepted.
-/// For the message unions the guards of the protocol handlers are applied first (as `received` does).
+/// For the message unions (and SendBlock) the REAL guards of the protocol handlers are applied first, as `received` does.
 pub fn deep_battery(ty: &str, buf: &[u8], compat: bool) {
     macro_rules! ent {
         ($t:ident) => {
@@ -94,7 +94,13 @@ pub fn deep_battery(ty: &str, buf: &[u8], compat: bool) {
         }
         "CompactBlock" => compact_battery(ent!(CompactBlock)),
         "CompactBlockV1" => compact_battery(ent!(CompactBlockV1).as_v0()),
-        "SendBlock" => block_battery(ent!(SendBlock).block()),
+        "SendBlock" => {
+            let sb = ent!(SendBlock);
+            if received_guards::is_malformed_send_block(&sb.as_reader()) {
+                return; // Synchronizer::received bans the peer
+            }
+            block_battery(sb.block())
+        }
         "SendHeaders" => ent!(SendHeaders).headers().into_iter().for_each(header_battery),
         "BlockTransactions" => {
             let bt = ent!(BlockTransactions);
@@ -111,8 +117,8 @@ pub fn deep_battery(ty: &str, buf: &[u8], compat: bool) {
             let r = msg.as_reader();
             match r.to_enum() {
                 packed::SyncMessageUnionReader::SendBlock(sb) => {
-                    if sb.has_extra_fields() || sb.block().count_extra_fields() > 1 {
-                        return; // the handler bans the peer
+                    if received_guards::is_malformed_send_block(&sb) {
+                        return; // the handler bans the peer (the REAL guard, re-exported under cfg(ckb_verif))
                     }
                     block_battery(sb.block().to_entity());
                 }
@@ -132,8 +138,8 @@ pub fn deep_battery(ty: &str, buf: &[u8], compat: bool) {
             let r = msg.as_reader();
             match r.to_enum() {
                 packed::RelayMessageUnionReader::CompactBlock(cb) => {
-                    if cb.count_extra_fields() > 1 {
-                        return;
+                    if received_guards::is_malformed_compact_block(&cb) {
+                        return; // the REAL guard of Relayer::received
                     }
                     compact_battery(cb.to_entity());
                 }
